@@ -29,6 +29,45 @@ func remainderExamined(c *Ctx, r *Report, read *ssa.Function, at ssa.Instruction
 			hit = in
 		}
 	}
+	// ... and what is left is classified afresh (it may be another echo): no path from the trim to the filing of a
+	// reply avoids the "is this our own request" test
+	storeMsg := c.LookupFunc("driver/netconf", "Driver", "storeMessage")
+	isEchoTest := func(in ssa.Instruction) bool {
+		call, ok := in.(*ssa.Call)
+		if !ok {
+			return false
+		}
+		o := CalleeObj(call)
+		if o == nil || o.Pkg() == nil || o.Pkg().Path() != "bytes" || o.Name() != "Contains" || len(call.Call.Args) != 2 {
+			return false
+		}
+		needle := stripConv(call.Call.Args[1])
+		if sl, ok := needle.(*ssa.Slice); ok {
+			needle = sl.X
+		}
+		s, isC := constString(needle)
+		if !isC {
+			// []byte("</rpc>") is a conversion of a constant
+			if cv, ok := stripConv(call.Call.Args[1]).(*ssa.Convert); ok {
+				s, isC = constString(cv.X)
+			}
+		}
+		return isC && s == "</rpc>"
+	}
+	if storeMsg != nil {
+		rr2 := reachFrom(read, at, isEchoTest, nil)
+		var filed ssa.Instruction
+		for in := range rr2.visited {
+			if ci, ok := in.(*ssa.Call); ok && ci.Call.StaticCallee() == storeMsg {
+				filed = in
+			}
+		}
+		if filed != nil {
+			r.Bad(rule, construct+" (reclassified)", c.Pos(at.Pos()), "what is left after the echo was trimmed off can be filed as a reply without being tested for being an echo itself: when a late reply precedes the echo in the same read, the echo is what is left, and it is stored under the current request's id -- the call returns its own request as its reply", rr2.witness(c, filed)...)
+		} else {
+			r.OK(rule, construct+" (reclassified)", c.Pos(at.Pos()), "the remainder goes through the echo test again before anything is filed")
+		}
+	}
 	if hit != nil {
 		r.Bad(rule, construct, c.Pos(at.Pos()), "after the echo is trimmed off, the reader goes back to reading without looking at what is left: a complete late reply that arrived behind the echo stays in the buffer, the next read (the reply to the current request) is appended to it, and both are filed under the first one's message-id -- the current call never gets its reply", rr.witness(c, hit)...)
 	} else {
